@@ -14,7 +14,7 @@ SA == <<D("src"), D("sub"), Seg("a", "lua")>>
 SB == <<D("src"), D("sub"), Seg("b", "lua")>>
 DC == <<D("src"), D("sub"), D("deep"), Seg("c", "lua")>>
 XU == <<D("src"), Seg("x", "luau")>>
-Trees == IF Thorough THEN {<<A, SA, SB, DC, XU>>, <<A, B, SA, SB, DC>>, <<B, DC>>} ELSE {<<A, SA, SB, DC, XU>>}
+Trees == IF Thorough THEN {<<A, SA, SB, DC, XU>>, <<A, B, SA, SB, DC>>, <<B, DC>>} ELSE {<<A, SA, SB, DC, XU>>, <<B, DC>>}
 
 L(n) == Lit(n, "")
 Patterns == <<
@@ -43,44 +43,48 @@ Singles == {PL("one", <<p>>) : p \in 1..NP}
 Arrays == {PL("many", <<1, 5>>), PL("many", <<2, 12>>), PL("many", <<7, 8>>), PL("many", <<3>>), PL("many", <<>>), PL("many", <<10, 14>>)}
           \cup (IF Thorough THEN {PL("many", <<p, q>>) : p \in {1, 2, 4, 6}, q \in {3, 5, 7, 11, 13}} \cup {PL("many", <<p>>) : p \in 1..NP} ELSE {})
 Lists == {NoList} \cup Singles \cup Arrays
-FewLists == {NoList, PL("one", <<1>>), PL("one", <<3>>), PL("many", <<2, 12>>), PL("one", <<6>>)}
+FewLists == {NoList, PL("one", <<1>>), PL("many", <<2, 12>>)}
 
 FP(a, s) == [apply |-> a, skip |-> s]
 NoFP == FP(NoList, NoList)
-Rich == {FP(a, s) : a \in Lists, s \in Lists}
-Few  == {FP(a, s) : a \in FewLists, s \in {NoList, PL("one", <<5>>), PL("many", <<1, 7>>)}}
+Few  == {FP(a, s) : a \in FewLists, s \in {NoList, PL("one", <<5>>)}} \cup (IF Thorough THEN {FP(PL("one", <<6>>), PL("many", <<1, 7>>)), FP(PL("one", <<3>>), NoList)} ELSE {})
 FewTop == {NoFP, FP(PL("one", <<4>>), PL("one", <<11>>)), FP(NoList, PL("many", <<3>>)), FP(PL("many", <<1, 5>>), NoList)}
 
-\* the cases: filters in one place (top level or one rule) from the rich set, and filters everywhere from the small sets
-Case(tree, top, r1, r2, r3, fam) == [tree |-> tree, top |-> top, rules |-> <<r1, r2, r3>>, fam |-> fam]
-Cases ==
+\* the cases: filters in ONE place (top level or one rule) from the rich set Lists x Lists, and filters EVERYWHERE from the
+\* small sets.  Seeds partition the cases so that TLC's workers share the work: a seed state has the cases of its part as successors.
+Case(kind, tree, top, r1, r2, r3, fam) == [kind |-> kind, tree |-> tree, top |-> top, rules |-> <<r1, r2, r3>>, fam |-> fam]
+Seeds ==
   UNION {
-    {Case(tr, x, NoFP, NoFP, NoFP, "top") : x \in Rich}
-    \cup {Case(tr, NoFP, x, NoFP, NoFP, "rule1") : x \in Rich}
-    \cup {Case(tr, NoFP, NoFP, x, NoFP, "rule2") : x \in Rich}
-    \cup {Case(tr, NoFP, NoFP, NoFP, x, "rule3") : x \in Rich}
-    \cup {Case(tr, tp, x, y, z, "all") : tp \in FewTop, x \in Few, y \in Few, z \in Few}
+    {Case("seed", tr, FP(a, NoList), NoFP, NoFP, NoFP, f) : a \in Lists, f \in {"top", "rule1", "rule2", "rule3"}}
+    \cup {Case("seed", tr, tp, x, NoFP, NoFP, "all") : tp \in FewTop, x \in Few}
     : tr \in Trees}
+CasesOf(sd) ==
+  CASE sd.fam = "top"   -> {Case("case", sd.tree, FP(sd.top.apply, s), NoFP, NoFP, NoFP, "top") : s \in Lists}
+    [] sd.fam = "rule1" -> {Case("case", sd.tree, NoFP, FP(sd.top.apply, s), NoFP, NoFP, "rule1") : s \in Lists}
+    [] sd.fam = "rule2" -> {Case("case", sd.tree, NoFP, NoFP, FP(sd.top.apply, s), NoFP, "rule2") : s \in Lists}
+    [] sd.fam = "rule3" -> {Case("case", sd.tree, NoFP, NoFP, NoFP, FP(sd.top.apply, s), "rule3") : s \in Lists}
+    [] OTHER            -> {Case("case", sd.tree, sd.top, sd.rules[1], y, z, "all") : y \in Few, z \in Few}
 
 VARIABLE c
-Init == c \in Cases
-Next == UNCHANGED c
+Init == c \in Seeds
+Next == c.kind = "seed" /\ c' \in CasesOf(c)
+IsCase == c.kind = "case"
 
 \* the abstract configuration of Filters
 Cfg(x) == [apply |-> x.top.apply.pats, skip |-> x.top.skip.pats,
            rules |-> [k \in 1..3 |-> [on |-> TRUE, apply |-> x.rules[k].apply.pats, skip |-> x.rules[k].skip.pats]]]
 Files == {c.tree[i] : i \in DOMAIN c.tree}
-AltFilters == {<<a.pats, s.pats>> : a \in FewLists, s \in {NoList, PL("one", <<5>>)}}
+AltFilters == {<<a.pats, s.pats>> : a \in {NoList, PL("one", <<1>>)}, s \in {NoList, PL("one", <<5>>)}}
 
 \* theorems of Filters on this case (hard invariants: they hold by design, a violation is a defect of the model)
-DeletionTheorem == \A f \in Files, k \in 1..3 : RuleFilterIsDeletion(Cfg(c), k, f) /\ RuleRunsIsItsOwnEffect(Cfg(c), k, f)
-LocalityTheorem == \A f \in Files, k \in 1..3 : \A alt \in AltFilters : FilterIsLocal(Cfg(c), k, alt[1], alt[2], f)
-RootTheorem     == \A f \in Files : RootExcludedUntouched(Cfg(c), f)
+DeletionTheorem == IsCase => \A f \in Files, k \in 1..3 : RuleFilterIsDeletion(Cfg(c), k, f) /\ RuleRunsIsItsOwnEffect(Cfg(c), k, f)
+LocalityTheorem == IsCase => \A f \in Files, k \in 1..3 : \A alt \in AltFilters : FilterIsLocal(Cfg(c), k, alt[1], alt[2], f)
+RootTheorem     == IsCase => \A f \in Files : RootExcludedUntouched(Cfg(c), f)
 
 PatJson(p) == [s |-> PatStr(p), segs |-> p]
 ListJson(l) == [form |-> l.form, pats |-> [i \in DOMAIN l.pats |-> PatJson(l.pats[i])]]
 FPJson(x) == [apply |-> ListJson(x.apply), skip |-> ListJson(x.skip)]
-EmitCase == PrintT("CASE " \o ToJson([
+EmitCase == IsCase => PrintT("CASE " \o ToJson([
   fam |-> c.fam,
   files |-> [i \in DOMAIN c.tree |-> [s |-> PathStr(c.tree[i]), segs |-> c.tree[i]]],
   top |-> FPJson(c.top),
